@@ -286,6 +286,11 @@ class Thm:
         A[s] |- B[s]  where s is substitution on terms
 
         """
+        # The instantiating terms are placed below the binders of the theorem
+        # as they are: an open term would be captured there.
+        if any(t.is_open() for t in list(inst.values()) + list(inst.var_inst.values())):
+            raise InvalidDerivationException("substitution: open term")
+
         try:
             # Type variables are instantiated by matching the types of the
             # schematic variables with the types of their instances. Complete
